@@ -266,6 +266,21 @@ func (e *transpEngine) Exec(line string) (string, string) {
 		}), vivid.WithActorName(fname))
 		fref = mkRef(p.a, f)
 	}
+	if op == "watch-twin" || op == "unwatch-twin" {
+		// a second watcher with the caller's very path, on the other system
+		trefB := mkRef(p.b, tgt)
+		p.b.ActorOf(vivid.ActorFN(func(c vivid.ActorContext) {
+			switch m := c.Message().(type) {
+			case *vivid.OnLaunch:
+				c.Watch(trefB)
+			case *vivid.OnKilled:
+				if m.Ref != nil && !m.Ref.Equals(c.Ref()) {
+					p.ev("twin onkilled ref=%s", p.refStr(m.Ref))
+				}
+			}
+		}), vivid.WithActorName(fmt.Sprintf("caller-%d", id)))
+		time.Sleep(80 * time.Millisecond)
+	}
 	// the caller actor on A performs the operation from inside its handler
 	done := make(chan struct{})
 	p.a.ActorOf(vivid.ActorFN(func(c vivid.ActorContext) {
@@ -287,10 +302,12 @@ func (e *transpEngine) Exec(line string) (string, string) {
 				c.Kill(tref, false, "why")
 			case "poison":
 				c.Kill(tref, true, "why")
-			case "watch", "unwatch":
-				c.Watch(tref)
-				if op == "unwatch" {
-					c.Unwatch(tref)
+			case "watch", "unwatch", "watch-twin", "unwatch-twin":
+				if op != "unwatch-twin" {
+					c.Watch(tref)
+				}
+				if op == "unwatch" || op == "unwatch-twin" {
+					c.Unwatch(tref) // unwatch-twin: the caller never watched; its namesake on the other system does
 				}
 				// the target's own system ends it a little later
 				go func() {
@@ -321,7 +338,7 @@ func (e *transpEngine) Exec(line string) (string, string) {
 	case <-time.After(2 * time.Second):
 	}
 	wait := 250 * time.Millisecond
-	if op == "pipe-fail" || op == "watch" || op == "unwatch" {
+	if op == "pipe-fail" || strings.HasPrefix(op, "watch") || strings.HasPrefix(op, "unwatch") {
 		wait = 450 * time.Millisecond
 	}
 	time.Sleep(wait)
@@ -344,7 +361,7 @@ func (e *transpEngine) Exec(line string) (string, string) {
 	// the watch scenarios end the target through its own system: that kill is scaffolding
 	var keep []string
 	for _, x := range evs {
-		if (op == "watch" || op == "unwatch") && strings.HasPrefix(x, "target ") {
+		if (strings.HasPrefix(op, "watch") || strings.HasPrefix(op, "unwatch")) && strings.HasPrefix(x, "target ") {
 			continue
 		}
 		keep = append(keep, x)
@@ -358,7 +375,15 @@ func (e *transpEngine) Exec(line string) (string, string) {
 	if w == "" {
 		w = "-"
 	}
-	return obs + " | wire=" + w, ""
+	viol := ""
+	has := func(x string) bool { return strings.Contains(obs, x) }
+	switch {
+	case op == "watch-twin" && !(has("caller onkilled ref=target") && has("twin onkilled ref=target")):
+		viol = fmt.Sprintf("WATCH: two watchers with the same path on two systems (%s:/caller-%d and its namesake on the other system) both watch the %s target; after it terminated the notifications were: [%s]", "A", id, loc, obs)
+	case op == "unwatch-twin" && !has("twin onkilled ref=target"):
+		viol = fmt.Sprintf("WATCH: an Unwatch from A:/caller-%d (which never watched) removed the registration of its namesake on the other system: the %s target terminated and the watcher was told: [%s]", id, loc, obs)
+	}
+	return obs + " | wire=" + w, viol
 }
 
 func (e *transpEngine) Generate(c *Ctx) {
@@ -368,7 +393,7 @@ func (e *transpEngine) Generate(c *Ctx) {
 			p.stop()
 		}
 	}()
-	ops := []string{"tell", "tellv", "ask", "kill", "poison", "watch", "unwatch", "ping", "pipe-ok@local", "pipe-ok@remote", "pipe-ok@twin", "pipe-fail@local", "pipe-fail@remote", "pipe-fail@twin"}
+	ops := []string{"tell", "tellv", "ask", "kill", "poison", "watch", "unwatch", "watch-twin", "unwatch-twin", "ping", "pipe-ok@local", "pipe-ok@remote", "pipe-ok@twin", "pipe-fail@local", "pipe-fail@remote", "pipe-fail@twin"}
 	seen := map[string][2]string{}
 	for _, cfg := range []string{"codec", "registered"} {
 		for _, op := range ops {
